@@ -306,6 +306,10 @@ def _replay(state, item):
 # Histories of the model instantiated over a LARGE text alphabet: for one text x the history
 #   fc_len72(x) fc(x) fc_safe(x) fc(x) fix_line_lengths_60(x)  r1(x) r1(x) r2(x) r2(x) ...  fc(x)
 # (every rule r, twice) runs in one process; every call is compared with the same call in a pristine process.
+# texts whose boolean expressions share an operand that is no plain name (the symbolic simplifier numbers such operands)
+DIRECTED_PAIRS = [("flag = c.z and (c.z or d.w)\nprint(flag)\n", "ok = (a.x and b.y) or (a.x and c.z)\nprint(ok)\n"),
+                  ("flag = f(1) or (f(1) and g(2))\nprint(flag)\n", "ok = (h(0) or g(2)) and (h(0) or f(1))\nprint(ok)\n"),
+                  ("if t[0] and (t[0] or t[1]):\n    print(1)\n", "if (u[2] and t[1]) or (u[2] and t[0]):\n    print(2)\n")]
 ENTRY_CALLS = ["format_code_len72_preserve", "format_code", "format_code_safe", "format_code", "fix_line_lengths_60"]
 
 
@@ -332,7 +336,8 @@ def _fresh_text_call(state, item):
 
 def _text_history(state, item):
     mods, tmp = state
-    text, calls = item
+    text, calls = item[0], item[1]
+    prev_text = item[2] if len(item) > 2 else None
     watch = ParseWatch(mods)
     watch.install()
     twatch = TemplateWatch(mods)
@@ -342,7 +347,11 @@ def _text_history(state, item):
     try:
         for step, name in enumerate(calls, start=1):
             try:
-                out.append(("ok", call(mods, name, text)))
+                if name.startswith("prev:"):
+                    call(mods, name[5:], prev_text)         # a call on ANOTHER text: what it leaves behind is the point
+                    out.append(("ok", "(another text)"))
+                else:
+                    out.append(("ok", call(mods, name, text)))
             except Exception as exc:  # noqa: BLE001
                 out.append(("raised", f"{type(exc).__name__}: {exc}"))
             if bad is None:
@@ -373,6 +382,9 @@ def text_histories(rep: Report, mods, t: str, rng: random.Random) -> Tuple[int, 
         for r in firing:
             calls += [r, r]
         calls.append("format_code")
+        # the same again after so many other texts have been parsed that nothing of x is left in the bounded caches
+        # (what the unbounded ones still hold was computed from trees that are gone by then)
+        calls += ["flood", "format_code"] + [r for r in firing if r.startswith("tracing.")]
         items.append((x, calls))
         meta.append((origin, x, calls))
     # every example of an example script, with the rule that script is about: r(x) r(x) r(x)
@@ -392,6 +404,16 @@ def text_histories(rep: Report, mods, t: str, rng: random.Random) -> Tuple[int, 
         if isinstance(own_fresh.get((r, x)), tuple) and own_fresh[(r, x)] != ("ok", x):
             items.append((x, [r, r, r]))
             meta.append((origin, x, [r, r, r]))
+    # two DIFFERENT texts in one process: the neighbour (previous example of the same script: similar operands, names, shapes)
+    # is formatted first, then the text itself
+    pairs = [(texts[i - 1], texts[i]) for i in range(1, len(texts)) if texts[i - 1][0].split(":")[0] == texts[i][0].split(":")[0]]
+    pairs += [(("directed:shared-operand:a", a), ("directed:shared-operand:b", b)) for a, b in DIRECTED_PAIRS]
+    extra_keys = [("format_code", b) for _, (_, b) in pairs if ("format_code", b) not in fresh]
+    fresh.update(zip(extra_keys, workers.run_tasks(_fresh_text_call, extra_keys, init=_init, procs=16, timeout=120, fork_per_task=True)))
+    for (o1, x1), (o2, x2) in pairs:
+        calls = ["prev:format_code", "format_code", "prev:format_code_safe", "format_code"]
+        items.append((x2, calls, x1))
+        meta.append((f"{o2} after {o1}", x2, calls))
     results = workers.run_tasks(_text_history, items, init=_init, procs=16, timeout=600, fork_per_task=True)
     n_calls = 0
     for (origin, x, calls), r in zip(meta, results):
